@@ -33,18 +33,19 @@
 (***************************************************************************)
 EXTENDS Naturals, Integers, Sequences, FiniteSets, TLC
 
-CONSTANTS Cfg, Kinds, BatchSize, ValidateFirst, RootCheck
+CONSTANTS Kinds, BatchSize, ValidateFirst, RootCheck
 
 M == INSTANCE MMR WITH m <- <<>>, MaxLeaves <- 0, TermLeaves <- 0
 
 Trees  == {"bitmap", "output", "rangeproof", "kernel"}
 PTrees == {"output", "rangeproof", "kernel"}
 
-VARIABLES cache,      \* [tree -> set of [idx, good]] validated-but-unapplied segments (<= 1 per idx)
+VARIABLES Cfg,        \* the archive header's trees (chosen once, never changes; see above)
+          cache,      \* [tree -> set of [idx, good]] validated-but-unapplied segments (<= 1 per idx)
           applied,    \* [tree -> Seq(BOOLEAN)] good-flags of the segments applied, in order
           bmFinal,    \* bitmap_cache.is_some()
           finalised   \* "no" | "ok" | "err"
-vars == <<cache, applied, bmFinal, finalised>>
+vars == <<Cfg, cache, applied, bmFinal, finalised>>
 
 NSeg(t)   == Cfg.nseg[t]
 Count(t)  == Len(applied[t])
@@ -78,7 +79,9 @@ Desired ==
               : t \in PTrees}
 
 -----------------------------------------------------------------------------
-Init == /\ cache = [t \in Trees |-> {}]
+InitWith(c) ==
+        /\ Cfg = c
+        /\ cache = [t \in Trees |-> {}]
         /\ applied = [t \in Trees |-> <<>>]
         /\ bmFinal = FALSE
         /\ finalised = "no"
@@ -97,7 +100,7 @@ AddSegment(t, idx, kind) ==
   /\ cache' = IF Accepts(t, idx, kind) /\ idx \notin CachedIdx(t)
               THEN [cache EXCEPT ![t] = @ \cup {[idx |-> idx, good |-> kind = "honest"]}]
               ELSE cache
-  /\ UNCHANGED <<applied, bmFinal, finalised>>
+  /\ UNCHANGED <<Cfg, applied, bmFinal, finalised>>
 
 RECURSIVE Batch(_, _, _)
 \* take_segment_batch: consecutive indices from `from`, at most n
@@ -123,17 +126,17 @@ ApplyNext ==
           /\ LET b == [t \in PTrees |-> IF NextRequired(t) = -1 THEN <<>> ELSE Batch(t, NextRequired(t), BatchSize)]
              IN /\ applied' = [t \in Trees |-> IF t \in PTrees THEN applied[t] \o Flags(t, b[t], Count(t)) ELSE applied[t]]
                 /\ cache' = [t \in Trees |-> IF t \in PTrees THEN {e \in cache[t] : e.idx \notin ToSet(b[t])} ELSE cache[t]]
-  /\ UNCHANGED finalised
+  /\ UNCHANGED <<Cfg, finalised>>
 
 Finalize ==
   /\ finalised = "no" /\ Complete
   /\ finalised' = IF RootCheck /\ ~AllGood THEN "err" ELSE "ok"
-  /\ UNCHANGED <<cache, applied, bmFinal>>
+  /\ UNCHANGED <<Cfg, cache, applied, bmFinal>>
 
 Next == \/ \E t \in Trees, idx \in 0..2, k \in Kinds : idx <= NSeg(t) /\ AddSegment(t, idx, k)
         \/ ApplyNext
         \/ Finalize
-Spec == Init /\ [][Next]_vars
+Spec == (\E c \in {Cfg} : InitWith(c)) /\ [][Next]_vars   \* the MC / trace modules supply the configuration
 
 -----------------------------------------------------------------------------
 TypeOK == /\ \A t \in Trees : \A e \in cache[t] : e.idx \in 0..3 /\ e.good \in BOOLEAN
